@@ -3,7 +3,8 @@ package c06
 // treediff: a second, independent reference for the corpus files, including the many that have no h5dump output shipped
 // with them. Whatever the library's reader LISTS for a reference file (object kinds, dataset shapes and element types) must
 // agree with what the independent spec-based decoder (harness/indep, validated against the h5dump outputs in
-// harness/indeptest) finds at the same path. Omissions are not judged here (they are the DDL comparison's findings).
+// harness/indeptest) finds at the same path. Omitted objects are not judged here (they are the DDL comparison's
+// findings); omitted attribute messages of version 1 object headers are.
 
 import (
 	"fmt"
@@ -164,6 +165,29 @@ func vlenAttrProblems(ref *indep.File, r *indep.Object, path string, attrs []obs
 	return
 }
 
+// missingAttrProblems: every attribute stored as a message of a version 1 object header (whichever block of the header
+// holds it) is listed by the library when it lists the object's attributes at all. Attributes of a committed datatype
+// are left to the DDL comparison's open finding.
+func missingAttrProblems(r *indep.Object, path string, attrs []obs.Attr) (ps []string, n int) {
+	if r.HeaderVersion != 1 {
+		return
+	}
+	have := map[string]bool{}
+	for _, a := range attrs {
+		have[a.Name] = true
+	}
+	for _, ra := range r.Attrs {
+		if ra.Dense || ra.Type == nil || ra.Type.Shared {
+			continue
+		}
+		n++
+		if !have[ra.Name] {
+			ps = append(ps, fmt.Sprintf("%s: attribute %q (message version %d) is stored in the object header but not listed (%d of %d listed)", path, ra.Name, ra.MsgVersion, len(attrs), len(r.Attrs)))
+		}
+	}
+	return
+}
+
 func treeProblemsOf(full string, data []byte) (problems []string, compared int, skip string) {
 	ref, err := indep.Decode(data, indep.TolerateAll())
 	if err != nil || ref == nil {
@@ -196,6 +220,8 @@ func treeProblemsOf(full string, data []byte) (problems []string, compared int, 
 		}
 		if o.Groups[p].AttrsErr == "" {
 			ps, n := vlenAttrProblems(ref, r, p, o.Groups[p].Attrs)
+			problems, compared = append(problems, ps...), compared+n
+			ps, n = missingAttrProblems(r, p, o.Groups[p].Attrs)
 			problems, compared = append(problems, ps...), compared+n
 		}
 		for _, c := range o.Groups[p].Children {
@@ -238,6 +264,8 @@ func treeProblemsOf(full string, data []byte) (problems []string, compared int, 
 		d := o.Datasets[p]
 		if d.AttrsErr == "" {
 			ps, n := vlenAttrProblems(ref, r, p, d.Attrs)
+			problems, compared = append(problems, ps...), compared+n
+			ps, n = missingAttrProblems(r, p, d.Attrs)
 			problems, compared = append(problems, ps...), compared+n
 		}
 		if d.InfoErr != "" || r.Type == nil {
